@@ -15,6 +15,11 @@ func (*inArray) Exit(node *Node) {
 		if n.Operator == "in" || n.Operator == "not in" {
 			if array, ok := n.Right.(*ArrayNode); ok {
 				if len(array.Nodes) > 0 {
+					if mayBeNil(n.Left) {
+						// The lookup map cannot be indexed with nil,
+						// and an array just does not contain it.
+						return
+					}
 					t := n.Left.Type()
 					if t == nil || t.Kind() != reflect.Int {
 						// This optimization can be only performed if left side is int type,
@@ -68,4 +73,20 @@ func (*inArray) Exit(node *Node) {
 			}
 		}
 	}
+}
+
+// mayBeNil reports whether a node of a non-nil static type can evaluate to nil:
+// a nil-safe chain does for a nil receiver, a conditional does if a branch is nil.
+func mayBeNil(node Node) bool {
+	switch n := node.(type) {
+	case *NilNode:
+		return true
+	case *PropertyNode:
+		return n.NilSafe
+	case *MethodNode:
+		return n.NilSafe
+	case *ConditionalNode:
+		return mayBeNil(n.Exp1) || mayBeNil(n.Exp2)
+	}
+	return false
 }
